@@ -265,7 +265,11 @@ func (t *memTransport) matchRule(ev M) M {
 			}
 			for _, c := range conds {
 				gm := m(c)
-				if t.state[gm["name"].(string)] != num(gm["eq"]) {
+				if lt, has := gm["lt"]; has { // counter below a bound
+					if t.state[gm["name"].(string)] >= num(lt) {
+						ok = false
+					}
+				} else if t.state[gm["name"].(string)] != num(gm["eq"]) {
 					ok = false
 				}
 			}
